@@ -84,9 +84,9 @@ type (
 		// unlike singletonExecutions they belong to one row set, so a copy
 		// made for an inner dimension starts with none
 		aggregateResults map[string]any
-		postProcessors      []func() error
-		dual                bool
-		options             *Options
+		postProcessors   []func() error
+		dual             bool
+		options          *Options
 
 		ident string
 	}
@@ -2142,7 +2142,11 @@ func CopyQuery(query *Query) *Query {
 		offsetDefinition:  query.offsetDefinition,
 		orderByDefinition: query.orderByDefinition,
 		options:           query.options,
-		postProcessors:    query.postProcessors,
+		// the copy starts from the parent's list but must not append into the
+		// parent's backing array: a post-processor that registers another one
+		// while the parent's list is being run (AWAIT) would overwrite the
+		// parent's next entries
+		postProcessors: query.postProcessors[:len(query.postProcessors):len(query.postProcessors)],
 		// ONCE / GLOBAL results are memoised per query, inner dimensions included
 		singletonExecutions: query.singletonExecutions,
 	}
